@@ -29,6 +29,7 @@ class Defs:
         self.params = set(arg_names(fn)) | {a.arg for a in fn.args.kwonlyargs}
         self.all = {}  # name -> [(line, ranges, record)]
         self.multi = set()
+        self.stmt_end = {}
         self.mutated = set()
         self.loopvars = {}
         self.loops = {}  # name -> [(For stmt, tuple position or None, ordinal)]
@@ -51,6 +52,8 @@ class Defs:
         for st in body:
             if isinstance(st, ast.Assign) and len(st.targets) == 1:
                 self._bind(st.targets[0], st.value, st.lineno, ranges)
+                # a multi-line statement does not define the names used inside itself (`a, s = f(x,\n s)`)
+                self.stmt_end[st.lineno] = max(self.stmt_end.get(st.lineno, 0), getattr(st, "end_lineno", st.lineno))
             elif isinstance(st, ast.AugAssign) and isinstance(st.target, ast.Name):
                 self.multi.add(st.target.id)
             # containers updated in place: their value at a use is not their allocation, keep the name
@@ -114,9 +117,11 @@ class Defs:
         lst = self.all[name]
         if line is None:
             return lst[-1][2] if len(lst) == 1 else None
-        before = [d for d in lst if d[0] < line]
+        before = [d for d in lst if d[0] < line and self.stmt_end.get(d[0], d[0]) < line]
         if not before:
             # used before any assignment in source order (e.g. closure defined earlier): unique definition only
+            if any(d[0] <= line <= self.stmt_end.get(d[0], d[0]) for d in lst):
+                return None  # the use sits inside the only statement(s) that define the name
             return lst[0][2] if len(lst) == 1 and lst[0][0] > line else None
         dline, ranges, rec = before[-1]
         if all(lo <= line <= hi for lo, hi in ranges):
